@@ -124,6 +124,9 @@ type Unit struct {
 	typeInvUsed   map[string]int
 	inInit        bool
 	strAtChecked, strAt bool
+	termOrigin    map[string]string
+	guardedTerm   map[string]guardedVal
+	epochAlloc    map[int]Term
 }
 
 type closureSite struct {
